@@ -107,7 +107,7 @@ def po_manager(S):
 
 
 @proof("C19", "manager(sequential,option-market)/each-strategy==running-it-alone;shared-order-book-intact(bounded)", strength="B",
-       config={"bounded_samples": {"quick": 4, "thorough": 24}})
+       config={"bounded_samples": {"quick": 8, "thorough": 40}})
 def po_manager_options(S):
     """bounded stand-in: strategies that trade the SAME instrument of one shared hourly order-book frame through BacktestManager
     (in-process path): each gets the fills, cash, positions and net value it gets alone, in either order, and the shared frame's
@@ -116,7 +116,10 @@ def po_manager_options(S):
     a1 = S.int("contracts_1", 1, 60)
     a2 = S.int("contracts_2", 1, 60)
     order = S.bool("reverse_order")
-    mks = [("taker", lambda: fx.BuyOption(fx.OPT_A, a1)), ("probe", lambda: fx.BuyOption(fx.OPT_A, a2)), ("bystander", lambda: fx.BuyOption(fx.OPT_B, 10))]
+    capped = S.bool("first_strategy_buys_with_a_price_cap")       # the cap path filters the book before filling it
+    quote = S.bool("second_strategy_asks_for_a_quote_first")
+    mks = [("taker", lambda: fx.BuyOption(fx.OPT_A, a1, 2 if capped else None)), ("probe", lambda: fx.BuyOption(fx.OPT_A, a2, None, quote)),
+           ("bystander", lambda: fx.BuyOption(fx.OPT_B, 10))]
     alone = {}
     for name, mk in mks:
         alone[name] = fx.run_manager_options([mk()])[0][0]
